@@ -18,7 +18,7 @@
 (* Laws judged on the real code: the dotted and the nested form of a spec give the same       *)
 (* answers; a Filter can be reused (same answer the second time); gen data is matched like    *)
 (* its simple form; Simplify() is the nested normal form.                                     *)
-EXTENDS Integers, Sequences, FiniteSets, TLC
+EXTENDS Integers, Sequences, FiniteSets, TLC, Json
 CONSTANT Full
 
 Null == [t |-> "null"]
@@ -99,6 +99,9 @@ VARIABLES spec, data
 fvars == <<spec, data>>
 FInit == \E cl \in Cells : spec = cl[1] /\ data = cl[2]
 FNext == FALSE /\ UNCHANGED fvars
+
+\* behaviour generation: every cell is printed as a case for the Go driver (CONSTRAINT Emit)
+Emit == PrintT(<<"CELL", ToJson([spec |-> spec, data |-> data])>>)
 
 \* design-level laws of the rule table
 Wrap1(x) == Arr(<<x>>)
